@@ -528,6 +528,12 @@ def r4(ctx: Ctx) -> None:
             cc, cpol = canon_pred(strip_ver(c))
             if ht in list(subterms(cc)):
                 dec.append((cc, cpol == pol))
+        # `event_hook.time or <default>`: the truth value of the list stands in for `is None`, so an empty list (never)
+        # takes the default (always) -- seed C13t
+        ordef = [l for l in loops(p) if l.iter is not None and strip_ver(l.iter)[0] == "bool" and strip_ver(l.iter)[1] == "or" and strip_ver(strip_ver(l.iter)[2][0]) == ht]
+        if not dec and ordef:
+            ctx.violated(f, ordef[0].node, "only a missing time list means `at all times` (an empty list means never)", "decision `event_hook.time is None`", f"`{short(strip_ver(ordef[0].iter))}`: an empty list is false, so it is replaced by the default like None")
+            continue
         if len(dec) != 1:
             ctx.unrec(f, f.node, "one decision on whether the hook carries a time list", "`event_hook.time is None`", p.describe()[:200])
             continue
